@@ -1,6 +1,7 @@
 package props
 
 import (
+	"bytes"
 	"fmt"
 	"testing"
 
@@ -41,6 +42,11 @@ type c08In struct {
 	Carved bool `json:"nonces_share_one_buffer,omitempty"`
 	// Template: (with NegotiateFirst) steps with the same transforms use by-value copies of ONE negotiated ChildSAKey
 	Template bool `json:"children_copied_from_one_negotiated_template,omitempty"`
+	// PreKeyed (with Template): the template Child SA was keyed under ANOTHER IKE SA before (the Child SA outlives a re-keyed
+	// IKE SA: RFC 7296 2.18); the copies start with their key fields cleared
+	PreKeyed bool `json:"template_keyed_under_another_ike_sa_before,omitempty"`
+	// AskProposal: every Child SA object is asked for its proposal (ToProposal) before it is keyed, as an exchange does
+	AskProposal bool `json:"proposal_asked_before_keying,omitempty"`
 	// EmptyKeyFields: the Child SA objects start with empty, non-nil key fields instead of nil ones
 	EmptyKeyFields bool `json:"key_fields_empty_not_nil,omitempty"`
 	// OnlyPrfObject: the IKE SA is assembled with the keyed Prf_d object only, the SK_d octets are not kept on it (the
@@ -83,6 +89,8 @@ var c08History = probe.Define("C08", "history", func(t *rapid.T) c08In {
 	in.ChildViaProposal = rapid.IntRange(0, 2).Draw(t, "childviaproposal") == 2
 	in.NegotiateFirst = rapid.IntRange(0, 3).Draw(t, "negotiatefirst") == 3
 	in.Template = in.NegotiateFirst && rapid.Bool().Draw(t, "template")
+	in.PreKeyed = in.Template && rapid.Bool().Draw(t, "prekeyed")
+	in.AskProposal = rapid.Bool().Draw(t, "askproposal")
 	in.Carved = rapid.IntRange(0, 2).Draw(t, "carved") == 2
 	in.EmptyKeyFields = rapid.IntRange(0, 3).Draw(t, "emptykeyfields") == 3
 	n := gen.Len(t, "nsteps", 1, 200, 1, 2, 100, 200)
@@ -150,8 +158,18 @@ var c08History = probe.Define("C08", "history", func(t *rapid.T) c08In {
 				k := [2]int{st.Encr, st.Integ}
 				if templates[k] == nil {
 					templates[k] = c
+					if in.PreKeyed {
+						other := newInfoSA(bridge.SuiteSel{Prf: (in.Prf + 1) % 3})
+						other.SK_d = bytes.Repeat([]byte{0x77}, ref.Prfs[(in.Prf+1)%3].KeyLen)
+						other.Prf_d = other.PrfInfo.Init(other.SK_d)
+						if err := probe.Try(func() error { return c.GenerateKeyForChildSA(other, []byte("nonces of the earlier exchange")) }); err != nil {
+							return probe.Fail("keying the template Child SA under another IKE SA: %v", err)
+						}
+					}
 				}
 				cc := *templates[k]
+				cc.InitiatorToResponderEncryptionKey, cc.InitiatorToResponderIntegrityKey = nil, nil
+				cc.ResponderToInitiatorEncryptionKey, cc.ResponderToInitiatorIntegrityKey = nil, nil
 				c = &cc
 			}
 			negotiated = append(negotiated, c)
@@ -193,6 +211,12 @@ var c08History = probe.Define("C08", "history", func(t *rapid.T) c08In {
 		if in.EmptyKeyFields {
 			c.InitiatorToResponderEncryptionKey, c.InitiatorToResponderIntegrityKey = []byte{}, []byte{}
 			c.ResponderToInitiatorEncryptionKey, c.ResponderToInitiatorIntegrityKey = []byte{}, []byte{}
+		}
+		if in.AskProposal {
+			// asking an object what it offers does not change what it is
+			if err := probe.Try(func() error { _, _ = c.ToProposal(); _ = fmt.Sprintf("%v", c); return nil }); err != nil {
+				return probe.Fail("ToProposal of Child SA %d before it is keyed: %v", i+1, err)
+			}
 		}
 		kL, err = deriveChildRaw(c, L, nonces[i])
 		if err != nil {
